@@ -9,9 +9,10 @@ Local Open Scope Q_scope.
 
 Definition nq (n : nat) : Q := inject_Z (Z.of_nat n).
 
-Record frame := { T : nat; F : nat; df : Q; dt : Q; fmin : Q; data : list (list Q) }.
+(* t0 = ts[0]: 0 for a stand-alone frame; Cadence.add_signal (or the user) may shift the frame's own time axis *)
+Record frame := { T : nat; F : nat; df : Q; dt : Q; fmin : Q; t0 : Q; data : list (list Q) }.
 Definition fs (fr : frame) (j : nat) : Q := fmin fr + nq j * df fr.
-Definition ts (fr : frame) (i : nat) : Q := nq i * dt fr.
+Definition ts (fr : frame) (i : nat) : Q := t0 fr + nq i * dt fr.
 
 Inductive comp := CFun (f : Q -> Q) | CArr (l : list Q) | CScal (c : Q).
 Inductive err := ValueError | TypeError | IndexError.
@@ -42,9 +43,9 @@ Definition rgrid (fr : frame) (o : opts) (lo n : nat) : list Q :=
   if integrate_f o then tab (n * f_sub o)%nat (fun k => fs fr lo + nq k * (df fr / nq (f_sub o)))
   else tab n (fun j => fs fr (lo + j)%nat).
 
-(* mean of f over the t_sub sub-samples of time bin i: linspace(0, n*dt, n*t_sub, endpoint=False) *)
+(* mean of f over the t_sub sub-samples of time bin i: ts[0] + linspace(0, n*dt, n*t_sub, endpoint=False) *)
 Definition submean (fr : frame) (o : opts) (f : Q -> Q) (i : nat) : Q :=
-  qmean (tab (t_sub o) (fun k => f (nq (i * t_sub o + k)%nat * (dt fr / nq (t_sub o))))).
+  qmean (tab (t_sub o) (fun k => f (t0 fr + nq (i * t_sub o + k)%nat * (dt fr / nq (t_sub o))))).
 
 Definition t_values (fr : frame) (o : opts) (tp : comp) : result (list Q) :=
   match tp with
@@ -104,7 +105,7 @@ Definition add_signal (fr : frame) (path tp : comp) (fp : Q -> Q -> Q) (bp : opt
   | Ok tv, Ok pv, Ok bv =>
       let px := if smear o then pixel_smear fp (n_smear o) tv pv bv grid else pixel_plain fp tv pv bv grid in
       let sig := mk (T fr) n (fmean o px) in
-      Ok ({| T := T fr; F := F fr; df := df fr; dt := dt fr; fmin := fmin fr;
+      Ok ({| T := T fr; F := F fr; df := df fr; dt := dt fr; fmin := fmin fr; t0 := t0 fr;
              data := map (fun i => add_slice lo hi (nth i (data fr) []) (nth i sig [])) (seq 0 (T fr)) |},
           map (fun i => pad_row (F fr) lo hi (nth i sig [])) (seq 0 (T fr)))
   | Err e, _, _ => Err e
